@@ -22,6 +22,9 @@ The value of the user's function is not decided.
 
 Round 4: (R13-copies-keep-state) Packet defines no copy / pickle protocol method that rebuilds
 the packet from its field values.
+
+Round 5: closures created in the hook-collecting loop that read the loop's variables late and
+are kept.
 """
 import ast
 
